@@ -1499,8 +1499,20 @@ def r_cfbres(ctx, rep):
                     g = _guard_const(cond, lid)
                     if g is not None:
                         best = g if best is None else min(best, g)
-                if a.get("k") == "Match" and a.get("src") in ("ForLoopDesugar", "for"):
-                    pass
+                # the call sits on the other side of `if id >= C { break / continue }` (the early exit was nested at load):
+                # reaching it implies id < C
+                if a.get("k") == "If" and a.get("els") is not None and any(x is c for x in walk(a["els"])):
+                    cu = unwrap(a["cond"])
+                    if isinstance(cu, dict) and cu.get("k") == "Binary" and cu.get("op") in (">=", ">"):
+                        from .kit import const_value as _cv
+                        pl_ = path_local(peel(cu["l"])) if isinstance(peel(cu["l"]), dict) and peel(cu["l"]).get("k") in ("Path", "Unary", "Deref") else None
+                        if pl_ is None:
+                            for x_ in walk_k(cu["l"], "Path"):
+                                pl_ = path_local(x_) or pl_
+                        cv_ = _cv(F, cu["r"])
+                        if pl_ and pl_[1] == lid and isinstance(cv_, int):
+                            g = cv_ if cu["op"] == ">=" else cv_ + 1
+                            best = g if best is None else min(best, g)
             # `for id in <iter>.filter(|id| *id < C)`: the filter closure's parameter stands for the loop variable
             for a in anc:
                 for f in walk_k(a, "MethodCall") if a.get("k") in ("Match", "Loop", "Call") else []:
